@@ -31,7 +31,7 @@ ASSUMPTIONS = [
     "'started waiting' = creation of the waiter Event (done under the zone lock immediately before it is queued)",
     "an additional uncontrolled stress run with real threading checks mutual exclusion and the final state only",
 ]
-REQUIRED = ["mon.histories_with_replacement_writers", "mon.histories_on_btree_zone", "mon.schedules_run_to_quiescence", "mon.mutual_exclusion", "mon.fifo_admission", "mon.final_state_serial", "mon.solo_reader", "mon.schedules_with_waiting", "mon.uncontrolled_transactions"]
+REQUIRED = ["mon.with_block_left_through_non_Exception", "mon.histories_with_replacement_writers", "mon.histories_on_btree_zone", "mon.schedules_run_to_quiescence", "mon.mutual_exclusion", "mon.fifo_admission", "mon.final_state_serial", "mon.solo_reader", "mon.schedules_with_waiting", "mon.uncontrolled_transactions"]
 BUDGET = {"quick": 45.0, "thorough": 480.0}
 
 ORIGIN = dns.name.from_text("example.")
@@ -67,13 +67,38 @@ def zone_state(txn):
     return counter, tuple(uniq)
 
 
-def writer_body(sc, z, wid, commit, second, log, repl=False):
+class _Leave(BaseException):
+    """how a client's with-block may be left other than by an Exception: cancellation, generator close, interpreter exit"""
+
+
+def writer_body(sc, z, wid, commit, second, log, repl=False, with_exit=None):
     def body():
         for k in range(2 if second else 1):
             sc.log("call", wid)
             txn = z.writer(True) if repl else z.writer()
             sc.log("admit", wid)
             sc.pause("client:admitted")
+            if with_exit is not None:
+                # the context-manager spelling: leaving the block normally commits, leaving it through ANY exception ends the
+                # transaction without publishing anything -- in both cases the next writer is let in
+                do_commit = commit[k]
+                try:
+                    with txn:
+                        cur = txn.get(COUNTER, "TXT")
+                        old = int(cur[0].strings[0])
+                        sc.pause("client:read")
+                        txn.replace(COUNTER, 0, txt(old + 1))
+                        sc.pause("client:wrote-counter")
+                        txn.add(dns.name.from_text(f"u{wid}x{k}", None), 60, txt(wid))
+                        sc.pause("client:wrote-unique")
+                        sc.log("end", wid, k, do_commit)
+                        if not do_commit:
+                            raise {"exception": ValueError, "base": _Leave, "generator-exit": GeneratorExit, "keyboard": KeyboardInterrupt}[with_exit]()
+                except (ValueError, _Leave, GeneratorExit, KeyboardInterrupt):
+                    pass
+                sc.log("ended", wid)
+                sc.pause("client:after-end")
+                continue
             try:
                 if repl:
                     # a replacement transaction (a reload): starts empty; the committed zone holds only what it adds
@@ -202,7 +227,13 @@ def run_schedule(ctx, strategy, plan, inj, line_p, rng, tag, case, dfs=False, op
             ctx.count("mon.histories_with_replacement_writers" if opts.get("repl") else "mon.histories_without_replacement_writers")
             ctx.count("mon.histories_on_btree_zone" if opts.get("zone") == "btree" else "mon.histories_on_dict_zone")
         for wid, (commit, second) in enumerate(plan):
-            sc.spawn(writer_body(sc, z, wid, commit, second, None, repl=bool(opts) and wid in opts.get("repl", ())), f"w{wid}")
+            is_repl = bool(opts) and wid in opts.get("repl", ())
+            we = (opts or {}).get("with_exit", {}).get(wid) if not is_repl else None
+            if we is not None:
+                ctx.count("mon.writers_using_with_block")
+                if we != "exception" and not all(commit):
+                    ctx.count("mon.with_block_left_through_non_Exception")
+            sc.spawn(writer_body(sc, z, wid, commit, second, None, repl=is_repl, with_exit=we), f"w{wid}")
         if inj is not None:
             inj.attach(sc, (lambda: rng.random() < line_p) if line_p > 0 else (lambda: False))
 
@@ -269,7 +300,8 @@ def run_schedule(ctx, strategy, plan, inj, line_p, rng, tag, case, dfs=False, op
 
 
 def gen_opts(rng, plan):
-    return {"zone": rng.choice(("versioned", "versioned", "btree")), "repl": {w for w in range(len(plan)) if rng.random() < 0.2}}
+    return {"zone": rng.choice(("versioned", "versioned", "btree")), "repl": {w for w in range(len(plan)) if rng.random() < 0.2},
+            "with_exit": {w: rng.choice(("exception", "base", "generator-exit", "keyboard")) for w in range(len(plan)) if rng.random() < 0.3}}
 
 
 def gen_plan(rng, n=None):
@@ -423,5 +455,5 @@ def replay(case, ctx):
     choices = case.get("choices") or case.get("prefix") or []
     rng = random.Random(0)
     o = case.get("opts")
-    opts = {"zone": o.get("zone"), "repl": set(o.get("repl", ()))} if o else None
+    opts = {"zone": o.get("zone"), "repl": set(o.get("repl", ())), "with_exit": {int(k): v for k, v in (o.get("with_exit") or {}).items()}} if o else None
     run_schedule(ctx, S.PrefixStrategy(choices), plan, None, 0.0, rng, "replay", {"kind": "replay", "plan": case["plan"]}, opts=opts)
